@@ -51,6 +51,21 @@ func DoAddr(app *fiber.App, remote net.Addr, method, uri string, body []byte, hd
 	return ctx
 }
 
+// DoHandler dispatches one request in process through a handler obtained earlier (a running server asks App.Handler()
+// once: what Handler() does at start-up does not happen again between its requests).
+func DoHandler(h fasthttp.RequestHandler, method, uri string, hdr ...string) *fasthttp.RequestCtx {
+	var req fasthttp.Request
+	req.Header.SetMethod(method)
+	setURI(&req, uri)
+	for i := 0; i+1 < len(hdr); i += 2 {
+		req.Header.Add(hdr[i], hdr[i+1])
+	}
+	ctx := &fasthttp.RequestCtx{}
+	ctx.Init(&req, &net.TCPAddr{IP: net.IPv4(10, 0, 0, 9), Port: 1234}, nil)
+	h(ctx)
+	return ctx
+}
+
 // tlsConn is an in-memory connection that fasthttp takes for a TLS connection (RequestCtx.IsTLS looks for the two methods)
 type tlsConn struct{ *Conn }
 
